@@ -865,3 +865,123 @@ pub fn spec_in_axis_units(spec: &BcSpec, cx: f64) -> Option<BcSpec> {
         o => o.clone(),
     })
 }
+
+
+// ---------------------------------------------------------------------------------------
+// builder option histories
+
+/// One call on the `CubicSpline` strategy builder
+#[derive(Clone, Copy, Debug, PartialEq)]
+pub enum SplineOpt {
+    Boundary(u8), // 0 NotAKnot, 1 Natural, 2 Clamped, 3 Periodic
+    Extrapolate(bool),
+}
+
+/// Every sequence of 1..=max_len option calls; the configuration a sequence denotes is the last
+/// boundary (default NotAKnot) and the last extrapolate flag (default false) it contains.
+pub fn spline_option_histories(max_len: usize) -> Vec<Vec<SplineOpt>> {
+    let alphabet = [SplineOpt::Boundary(0), SplineOpt::Boundary(1), SplineOpt::Boundary(3), SplineOpt::Extrapolate(true), SplineOpt::Extrapolate(false)];
+    let mut all: Vec<Vec<SplineOpt>> = vec![vec![]];
+    let mut frontier: Vec<Vec<SplineOpt>> = vec![vec![]];
+    for _ in 0..max_len {
+        let mut next = vec![];
+        for h in &frontier {
+            for a in &alphabet {
+                let mut v = h.clone();
+                v.push(*a);
+                next.push(v);
+            }
+        }
+        all.extend(next.iter().cloned());
+        frontier = next;
+    }
+    all
+}
+
+pub fn denoted(h: &[SplineOpt]) -> (u8, bool) {
+    let mut b = 0u8;
+    let mut e = false;
+    for o in h {
+        match o {
+            SplineOpt::Boundary(k) => b = *k,
+            SplineOpt::Extrapolate(v) => e = *v,
+        }
+    }
+    (b, e)
+}
+
+/// Build a spline over 1-lane-per-column data by applying the option calls in the given order.
+pub fn build_spline_with_history(x: &[f64], data: Array2<f64>, h: &[SplineOpt]) -> Result<Spline1D<f64, Ix2>, BuilderError> {
+    let mut s = CubicSpline::new();
+    for o in h {
+        s = match o {
+            SplineOpt::Boundary(0) => s.boundary(BoundaryCondition::NotAKnot),
+            SplineOpt::Boundary(1) => s.boundary(BoundaryCondition::Natural),
+            SplineOpt::Boundary(2) => s.boundary(BoundaryCondition::Clamped),
+            SplineOpt::Boundary(_) => s.boundary(BoundaryCondition::Periodic),
+            SplineOpt::Extrapolate(v) => s.extrapolate(*v),
+        };
+    }
+    Interp1DBuilder::new(data).x(ax1(x)).strategy(s).build()
+}
+
+/// Compare every option history whose denoted configuration satisfies `keep` with the canonical
+/// two-call history of that configuration: all answers (values and errors) must be bit-identical.
+pub fn check_spline_option_histories(max_len: usize, keep: &dyn Fn(u8, bool) -> bool, out: &mut crate::driver::JobOut) {
+    use crate::json::Json;
+    let x = [-2.0, -1.25, 0.5, 1.0, 3.5, 4.0];
+    let n = x.len();
+    let mk = |periodic: bool| -> Array2<f64> {
+        let mut d = Array2::from_shape_fn((n, 2), |(i, j)| ((i * 3 + j * 5) as f64 * 0.37).sin() * (1.0 + j as f64) + 0.25 * i as f64);
+        if periodic {
+            for j in 0..2 {
+                d[[n - 1, j]] = d[[0, j]];
+            }
+        }
+        d
+    };
+    let span = x[n - 1] - x[0];
+    let mut qs: Vec<f64> = vec![];
+    for w in x.windows(2) {
+        qs.extend([w[0], w[0] + 0.3 * (w[1] - w[0])]);
+    }
+    qs.extend([x[n - 1], x[0] - 0.01, x[0] - 0.4 * span, x[0] - 2.5 * span, x[n - 1] + 0.01, x[n - 1] + 0.7 * span, x[n - 1] + 3.25 * span]);
+    let observe = |ip: &Spline1D<f64, Ix2>| -> Vec<Result<Vec<u64>, String>> { qs.iter().map(|&q| crate::driver::catch(|| ip.interp(q)).map_err(|p| format!("panic: {p}")).and_then(|r| r.map(|a| a.iter().map(|v| v.to_bits()).collect()).map_err(|e| e.to_string()))).collect() };
+    let mut canon: std::collections::BTreeMap<(u8, bool), Vec<Result<Vec<u64>, String>>> = Default::default();
+    for h in spline_option_histories(max_len) {
+        let (b, e) = denoted(&h);
+        if !keep(b, e) {
+            continue;
+        }
+        let c = canon.entry((b, e)).or_insert_with(|| {
+            let ip = build_spline_with_history(&x, mk(b == 3), &[SplineOpt::Extrapolate(e), SplineOpt::Boundary(b)]).expect("canonical configuration builds");
+            observe(&ip)
+        });
+        out.states += 1;
+        out.evals += 1;
+        out.transitions += h.len() as u64;
+        if h.len() >= 2 {
+            out.nontrivial += 1;
+        }
+        let key = format!("builder-history:{h:?}").replace(' ', "");
+        match crate::driver::catch(|| build_spline_with_history(&x, mk(b == 3), &h)) {
+            Ok(Ok(ip)) => {
+                let got = observe(&ip);
+                out.outcome(if &got == c { "history:same-as-canonical" } else { "history:differs" });
+                if &got != c {
+                    let k = got.iter().zip(c.iter()).position(|(a, b)| a != b).unwrap_or(0);
+                    let show = |r: &Result<Vec<u64>, String>| match r {
+                        Ok(v) => format!("{:?}", v.iter().map(|b| f64::from_bits(*b)).collect::<Vec<_>>()),
+                        Err(e) => format!("Err({e})"),
+                    };
+                    out.violate(
+                        key,
+                        format!("CubicSpline built with the option calls {h:?} (denoting boundary #{b}, extrapolate = {e}) answers q = {} with {}, the same configuration built with .extrapolate({e}).boundary(#{b}) with {}", qs[k], show(&got[k]), show(&c[k])),
+                        Json::obj(vec![("option_calls", Json::str(&format!("{h:?}"))), ("x", Json::f64s(&x)), ("query", Json::Num(qs[k]))]),
+                    );
+                }
+            }
+            other => out.violate(key, format!("CubicSpline with the option calls {h:?} did not build: {:?}", other.map(|r| r.map(|_| ()))), Json::Null),
+        }
+    }
+}
